@@ -11,6 +11,7 @@ COMMON = [
 PROPS = {
     "C02": dict(level="exploration", shards=(4, 16), timeout=(900, 3000), assumptions=COMMON, fuzz=[("FuzzC02", 240)]),
     "C01": dict(level="exploration", shards=(4, 16), timeout=(600, 3000), assumptions=COMMON),
+    "C03": dict(level="fault_enumeration", shards=(16, 16), timeout=(1200, 3400), assumptions=COMMON + ["loopback TCP; real TLS handshakes against an in-memory CA; the reference FSM in the harness is the RFC 6120 order as the property states it"]),
     "C05": dict(level="exploration", shards=(4, 16), timeout=(900, 3000), assumptions=COMMON + ["loopback TCP / WebSocket deliver bytes in order; quiescence is detected by waiting (up to 5 s, 20 s on the confirming re-run) until the expected number of stanzas was routed"]),
     "C06": dict(level="exploration", shards=(2, 16), timeout=(300, 1500), assumptions=COMMON),
     "C09": dict(level="exploration", shards=(4, 16), timeout=(600, 3000), assumptions=COMMON + ["loopback TCP delivers bytes in order; the scripted peer's own count of stanzas it sent is the wire truth"]),
@@ -27,6 +28,11 @@ NOT_APPLICABLE = {}
 
 # Texts for MANIFEST.json
 TEXT = {
+    "C03": dict(
+        technique="fault-script enumeration + property-based generation (rapid) of negotiation scripts against a reference FSM; real Client against the scripted peer with real TLS",
+        level_text="Fault enumeration: single faults {negotiation step} x {failure / stanza error incl. echoed payload, stream error, 8 unexpected elements, 5 malformed forms, 4 truncations, close, half-close} x {client configuration} are enumerated (completely in the thorough tier, a seed-selected 1/24 slice in the quick tier) and scripts with 0-2 deviations, success variants and resumable state from a real earlier connection are generated with rapid. A reference FSM decides the expected request sequence and outcome: Connect nil and one SessionEstablished event iff the server completed every mandatory step the client reaches, requests in FSM order and never beyond the fault, no request pending before the previous reply (one-directional look-ahead), bounded return time, no panic.",
+        level_note="TCP transport only (the WebSocket transport has no STARTTLS step and shares the rest of NewSession). A silent server (no reply at all) is not in the property's fault alphabet and is not generated. When the server marks the session feature optional the model follows whether the client opened it. Connect-hang and slowness verdicts are confirmed by a re-run with 4x margins.",
+    ),
     "C12": dict(
         technique="crash-point enumeration: every byte offset of fixed inbound streams plus rapid-generated streams and offsets; real Client against the scripted peer; goroutine-dump and transcript oracles",
         level_text="Fault enumeration: the server-to-client stream is cut (prefix, then half-close) at every byte offset of a few fixed streams (all offsets enumerated: between stanzas, inside tags, attributes, text, entities, CDATA, comments) and at generated offsets of generated streams, with and without stream management. Oracle per cut: one error callback and one Disconnected event (with the SM id), every stanza complete before the cut routed exactly once and nothing else, no surviving library goroutine, no keepalive write afterwards.",
